@@ -161,6 +161,14 @@ func qMT(e *mc.Env, ctx sdk.Context, _ []string) (map[string]string, error) {
 	return x.out, nil
 }
 
+// longOwner is an account address of 32 bytes (the length of module-derived and interchain accounts)
+func longOwner() sdk.AccAddress {
+	b := make([]byte, 32)
+	copy(b, mc.Addr("long-owner"))
+	copy(b[20:], mc.Addr("long-owner-tail"))
+	return sdk.AccAddress(b)
+}
+
 func idsService(e *mc.Env, ctx sdk.Context) []string {
 	var ids []string
 	e.Service.IterateRequestContexts(ctx, func(id tmbytes.HexBytes, _ svctypes.RequestContext) bool {
@@ -189,6 +197,10 @@ func qService(e *mc.Env, ctx sdk.Context, ids []string) (map[string]string, erro
 		if err == nil {
 			x.put("service.earned-fees("+a+")", f, nil)
 		}
+	}
+	for _, ow := range []sdk.AccAddress{mc.Addr("O1"), mc.Addr("O2"), longOwner()} {
+		w, err := e.Service.WithdrawAddress(ctx, &svctypes.QueryWithdrawAddressRequest{Owner: ow.String()})
+		x.put(fmt.Sprintf("service.withdraw-address(%d-byte owner %x)", len(ow), ow.Bytes()[:4]), w, err)
 	}
 	p, err := e.Service.Params(ctx, &svctypes.QueryParamsRequest{})
 	x.put("service.params", p, err)
@@ -327,6 +339,14 @@ var (
 		}},
 	}
 	govService = []mc.GovOp{
+		// (not governance: two more user messages) owners - one of them a 32-byte account address, as module-derived,
+		// interchain and group-policy accounts have - name the address their earned fees are withdrawn to
+		{Name: "service:set-withdraw-address(owner with a 32-byte address)", Msg: func(e *mc.Env, ctx sdk.Context) sdk.Msg {
+			return &svctypes.MsgSetWithdrawAddress{Owner: longOwner().String(), WithdrawAddress: mc.Addr("W").String()}
+		}},
+		{Name: "service:set-withdraw-address(O1)", Msg: func(e *mc.Env, ctx sdk.Context) sdk.Msg {
+			return &svctypes.MsgSetWithdrawAddress{Owner: mc.Addr("O1").String(), WithdrawAddress: mc.Addr("X").String()}
+		}},
 		{Name: "service(max_request_timeout=1)", Msg: func(e *mc.Env, ctx sdk.Context) sdk.Msg {
 			p := e.Service.GetParams(ctx)
 			p.MaxRequestTimeout = 1
